@@ -68,6 +68,14 @@ class Abs:
         if f is None:
             return set()
         fs = set(facts_at(f, node))
+        # the branch conditions of the world under evaluation
+        w = self.__dict__.get('_world')
+        if w:
+            from ..cfg import decompose, fact_key
+            for x in ast.walk(f):
+                if isinstance(x, ast.If) and id(x) in w:
+                    for (t_, p_) in decompose(x.test, w[id(x)] == 'body'):
+                        fs.add(fact_key(t_, p_))
         cd = getattr(f, '_class', None)
         if cd is not None and f.name in ('mutations', 'global_mutations'):
             fq = f'{cd.name}.filter'
@@ -85,7 +93,89 @@ class Abs:
     # kinds: ('node',) ('none',) ('int',) ('pytuple',) ('list', elemkind)
     #        ('text', cls, nonempty)  cls in TOK FRAG ESC INNER BITS
     #        ('bad', why) ('unknown', why)
+    def _correlated_ifs(self, f):
+        """If statements of f whose two branches both (re)define a common
+        name (local, nested function): the definitions are correlated - a
+        value built in one branch is consumed by the helper defined in the
+        same branch."""
+        key = id(f)
+        cache = self.__dict__.setdefault('_corr', {})
+        if key in cache:
+            return cache[key]
+
+        def defs(block):
+            out = set()
+            for st in block:
+                for x in ast.walk(st):
+                    if isinstance(x, ast.FunctionDef):
+                        out.add(x.name)
+                    elif isinstance(x, ast.Assign):
+                        for t in x.targets:
+                            if isinstance(t, ast.Name):
+                                out.add(t.id)
+            return out
+
+        res = []
+        for x in ast.walk(f):
+            if isinstance(x, ast.If) and x.orelse:
+                common = defs(x.body) & defs(x.orelse)
+                if len(common) >= 2:
+                    res.append(x)
+        cache[key] = res[:3]
+        return cache[key]
+
+    def _excluded(self, node):
+        """node lies in the branch not chosen by the current world"""
+        w = self.__dict__.get('_world')
+        if not w:
+            return False
+        cur = node
+        par = getattr(cur, '_parent', None)
+        while par is not None:
+            if id(par) in w and isinstance(par, ast.If):
+                chosen = w[id(par)]
+                blk = par.body if chosen == 'orelse' else par.orelse
+                if any(cur is b for b in blk):
+                    return True
+            cur = par
+            par = getattr(par, '_parent', None)
+        return False
+
     def kind(self, e, m, f, env=None, depth=0):
+        if depth == 0 and f is not None and not self.__dict__.get(
+                '_world') and isinstance(f, ast.FunctionDef):
+            ifs = self._correlated_ifs(f)
+            if ifs:
+                import itertools
+                acc = None
+                try:
+                    for choice in itertools.product(('body', 'orelse'),
+                                                    repeat=len(ifs)):
+                        self._world = {id(i_): c_
+                                       for i_, c_ in zip(ifs, choice)}
+                        if self._excluded(e):
+                            continue
+                        self.__dict__.pop('_busy', None)
+                        k = self.kind(e, m, f, env, 1)
+                        if k[0] == 'bad':
+                            return k
+                        if acc is not None and acc[0] == 'text' and \
+                                k[0] == 'text' and acc[1] != k[1] and all(
+                                    x[1] in ('TOK', 'VERB') or (
+                                        x[1] in ('FRAG', 'BITS') and x[2])
+                                    for x in (acc, k)):
+                            # each world yields a single token of its own
+                            # class: a token in every world
+                            acc = ('text', 'TOK', True, None)
+                            continue
+                        acc = k if acc is None else self.join(acc, k)
+                finally:
+                    self._world = None
+                if acc is not None:
+                    return acc
+        return self._kind(e, m, f, env, depth)
+
+    def _kind(self, e, m, f, env=None, depth=0):
         env = env or {}
         if depth > 14:
             return ('unknown', 'depth')
@@ -194,7 +284,9 @@ class Abs:
                     return ('text', 'NUMTXT', True, None, x)
                 return ('text', 'VERB', True, None, x)
             if e.attr == 'id':
-                return ('int', )
+                bk = self.kind(e.value, m, f, env, depth + 1)
+                # the identity of a node of the input is a valid key
+                return ('nodeid', ) if bk[0] == 'node' else ('int', )
             if isinstance(e.value, ast.Name) and e.value.id == 'self':
                 # class constant (e.g. BVTransformToBool.repl)
                 cd = getattr(f, '_class', None)
@@ -320,6 +412,8 @@ class Abs:
             return ('text', 'MIX', a[2] and b[2], None)
         if a[0] == 'int' and b[0] == 'int':
             return a
+        if {a[0], b[0]} <= {'int', 'nodeid'}:
+            return ('int', )
         if {a[0], b[0]} <= {'int', 'node', 'node-or-int'}:
             return ('node-or-int', )
         if a[0] == 'list' and b[0] == 'list':
@@ -411,7 +505,7 @@ class Abs:
                     continue
                 if k[0] in ('bad', 'unknown'):
                     return k
-                if k[0] == 'int':
+                if k[0] in ('int', 'nodeid'):
                     flat.append(('cls', 'FRAG', True))
                 elif k[0] == 'text':
                     flat.append(('cls', k[1], k[2]) + ((k[4], ) if len(
@@ -529,6 +623,8 @@ class Abs:
             par = getattr(par, '_parent', None)
         defs = []
         for st in ast.walk(f):
+            if self._excluded(st):
+                continue
             if isinstance(st, ast.Assign):
                 for t in st.targets:
                     if isinstance(t, ast.Name) and t.id == name:
@@ -681,7 +777,7 @@ class Abs:
             return ('int', )
         if nm == 'str' and len(e.args) == 1:
             k = self.kind(e.args[0], m, f, env, depth + 1)
-            if k[0] == 'int':
+            if k[0] in ('int', 'nodeid'):
                 return ('text', 'FRAG', True, None)
             if k[0] == 'node':
                 x = unparse(e.args[0])
@@ -729,7 +825,7 @@ class Abs:
                 if a == 'format':
                     ks = [self.kind(x, m, f, env, depth + 1)
                           for x in e.args]
-                    if all(k[0] == 'int' for k in ks):
+                    if all(k[0] in ('int', 'nodeid') for k in ks):
                         # '#b{:0>8b}'.format(int): template is a constant
                         tmpl = e.func.value
                         return ('text', 'FRAG', True, None)
@@ -763,6 +859,32 @@ class Abs:
                 if q in m.funcs:
                     return self.callee_kind(m, m.funcs[q], e, m, f, env,
                                             depth, skip_self=True)
+        # a nested definition (or several, one per branch) of the enclosing
+        # function: join over the definitions
+        if isinstance(e.func, ast.Name) and f is not None:
+            nested = [d for d in ast.walk(f) if isinstance(
+                d, ast.FunctionDef) and d is not f and d.name == e.func.id
+                and not self._excluded(d)]
+            lams = [st.value for st in ast.walk(f)
+                    if not self._excluded(st) and
+                    isinstance(st, ast.Assign) and isinstance(
+                        st.value, ast.Lambda) and any(
+                            isinstance(t, ast.Name) and t.id == e.func.id
+                            for t in st.targets)]
+            if nested or lams:
+                acc = None
+                for d in nested:
+                    k = self.callee_kind(m, d, e, m, f, env, depth,
+                                         skip_self=False)
+                    acc = k if acc is None else self.join(acc, k)
+                for lam in lams:
+                    cenv = dict(env or {})
+                    for p_, a_ in zip([x.arg for x in lam.args.args],
+                                      e.args):
+                        cenv[p_] = self.kind(a_, m, f, env, depth + 1)
+                    k = self.kind(lam.body, m, f, cenv, depth + 1)
+                    acc = k if acc is None else self.join(acc, k)
+                return acc
         # module-level helper of the same module / smtlib
         r = None
         if isinstance(e.func, (ast.Name, ast.Attribute)):
@@ -784,6 +906,15 @@ class Abs:
             k = self.kind(a, m, f, env, depth + 1)
             if k == ('node', ) and f is not None:
                 x = unparse(a)
+                # an alias of another name (base = symbol) in this world
+                if isinstance(a, ast.Name):
+                    al = [st.value for st in ast.walk(f)
+                          if isinstance(st, ast.Assign)
+                          and not self._excluded(st) and any(
+                              isinstance(t, ast.Name) and t.id == a.id
+                              for t in st.targets)]
+                    if len(al) == 1 and isinstance(al[0], ast.Name):
+                        x = al[0].id
                 fs = self.facts(m, f, call)
                 if (f'is_piped_symbol({x})', False) in fs:
                     k = ('node', 'FRAG')
@@ -901,6 +1032,18 @@ def rule_r1_r2(chk, prog, ab):
                 raise AnalysisError(
                     f'{m.loc(c)}: cannot find how the map "{substs.id}" is '
                     'built')
+        elif isinstance(substs, ast.Call) and call_name(substs) in (
+                'dict.fromkeys', ) and substs.args:
+            # dict.fromkeys(keys[, value]): every key maps to value (None)
+            kx = substs.args[0]
+            vx = substs.args[1] if len(substs.args) > 1 else ast.Constant(
+                value=None)
+            # a representative key: an element of the key list
+            pairs = [(ast.Subscript(value=kx, slice=ast.Constant(value=0),
+                                    ctx=ast.Load()), vx)]
+            for x_ in ast.walk(pairs[0][0]):
+                x_._parent = getattr(kx, '_parent', None) if x_ is \
+                    pairs[0][0] else getattr(x_, '_parent', pairs[0][0])
         else:
             raise AnalysisError(f'{m.loc(c)}: substs is {unparse(substs)}')
         for (k, v) in pairs:
@@ -948,13 +1091,13 @@ def rule_r1_r2(chk, prog, ab):
                 okk = kb[0] == 'node'
             elif isinstance(k, ast.Name):
                 kb = ab.kind(k, m, f)
-                okk = kb[0] in ('node', 'int')
+                okk = kb[0] in ('node', 'int', 'nodeid')
                 if kb[0] == 'int':
                     # node_id from "[n.id for n in input_]"
                     okk = True
             else:
-                kb = ab.kind(k, m, f)
-                okk = kb[0] == 'node'
+                kb = ab.kind(k, m, kf)
+                okk = kb[0] in ('node', 'nodeid')
             chk.check('C15.R2', where, f'key {kk[:40]}', okk,
                       f'the key "{kk}" is neither the identity of a node of '
                       'this input nor such a node', loc=m.loc(c),
@@ -1022,7 +1165,7 @@ def rule_r3(chk, prog, ab):
                         else:
                             k = ('bad', f'"{xt}" may be None when it '
                                  'becomes a leaf')
-                    if k[0] == 'int':
+                    if k[0] in ('int', 'nodeid'):
                         ok = True
                     elif k[0] == 'text':
                         cls, ne = k[1], k[2]
